@@ -657,7 +657,7 @@ func (w *World) dests(op *Op) []int {
 			// no result (error or panic half way): if the first operand holds a single element and the
 			// second is larger, the second is the one an unsafe operation works in
 			a, b := w.get(op.In[0]), w.get(op.In[1])
-			if a != nil && b != nil && a.Shape().TotalSize() == 1 && b.Shape().TotalSize() > 1 {
+			if a != nil && b != nil && ((a.Shape().TotalSize() == 1 && b.Shape().TotalSize() > 1) || (a.IsScalar() && !b.IsScalar())) {
 				d = append(d, op.In[1])
 			}
 		}
